@@ -7,6 +7,9 @@ BBMOD = 'photutils.aperture.bounding_box:BoundingBox'
 
 
 def register(reg):
+    register_extents(reg)
+    register_bbox(reg)
+    register_xy_extents(reg)
     reg.record('BoundingBox', {'ixmin': 'int', 'ixmax': 'int', 'iymin': 'int', 'iymax': 'int'})
 
     reg.add(Contract(
@@ -166,3 +169,229 @@ def register(reg):
         mutants=[('max(self.ixmin, other.ixmin)', 'min(self.ixmin, other.ixmin)'),
                  ('ixmax < ixmin or iymax < iymin', 'ixmax <= ixmin and iymax <= iymin')],
     ))
+
+
+def register_extents(reg):
+    """C01: "the mask's bounding box is the smallest integer pixel box containing the shape".
+    from_float is the smallest pixel box containing [xmin, xmax] x [ymin, ymax] (above); here:
+    the half extents handed to it are the exact half widths of the rotated shape -- every point
+    of the shape lies within them (containment) and a point of the shape attains each of them
+    (tightness).  sin / cos are uninterpreted with sin^2 + cos^2 = 1."""
+    import z3
+    from ..pyvc.values import SObj
+    reg.record('Quantity', {'rad': 'real'})
+    reg.add(Contract(
+        target='astropy/units/quantity.py::Quantity.to', props=['C01'], kind='method',
+        params={'self': 'Quantity', 'unit': ('const', 'radian')},
+        ensures=[('value', 'result.value == self.rad')],
+        returns=('record', 'QuantityValue', {'value': 'real'}), assumed=True,
+        note='theta.to(u.radian).value is the angle in radians (astropy.units)',
+    ))
+    consts = {'u': SObj('module', {'radian': 'radian'})}
+    c, s = 'cos_(theta.rad)', 'sin_(theta.rad)'
+    E = 'photutils/aperture/ellipse.py::EllipticalMaskMixin._calc_extents'
+    inell = (f'sq((p * {c} + q * {s}) / semimajor_axis) + '
+             f'sq((-p * {s} + q * {c}) / semiminor_axis) <= 1')
+    reg.add(Contract(
+        target=E, props=['C01'], kind='staticmethod',
+        params={'semimajor_axis': 'posreal', 'semiminor_axis': 'posreal', 'theta': 'Quantity'},
+        consts=consts,
+        ensures=[
+            ('non-negative', 'result[0] >= 0 and result[1] >= 0'),
+            ('x-extent-squared', f'sq(result[0]) == sq(semimajor_axis * {c}) + '
+                                 f'sq(semiminor_axis * {s})'),
+            ('y-extent-squared', f'sq(result[1]) == sq(semimajor_axis * {s}) + '
+                                 f'sq(semiminor_axis * {c})'),
+        ],
+        returns=('tuple', 'real', 'real'),
+        mutants=[('semiminor_x = semiminor_axis * -sin_theta', 'semiminor_x = semiminor_axis * cos_theta'),
+                 ('y_extent = np.sqrt(semimajor_y**2 + semiminor_y**2)',
+                  'y_extent = np.sqrt(semimajor_x**2 + semiminor_y**2)')],
+    ))
+    # geometric lemmas about the closed form (pure real arithmetic; no code involved): every
+    # point (p, q) of the ellipse has |p| <= X and |q| <= Y, and both bounds are attained
+    reg.add(Contract(
+        target=E, props=['C01'], kind='staticmethod', tag='contains-ellipse',
+        params={'semimajor_axis': 'posreal', 'semiminor_axis': 'posreal', 'theta': 'Quantity'},
+        consts=consts, custom=_ellipse_extent_lemmas,
+        mutants=[('semimajor_x = semimajor_axis * cos_theta', 'semimajor_x = semiminor_axis * cos_theta'),
+                 ('x_extent = np.sqrt(semimajor_x**2 + semiminor_x**2)',
+                  'x_extent = np.sqrt(semimajor_x**2 + semiminor_x**2) - 0.25')],
+    ))
+
+    R = 'photutils/aperture/rectangle.py::RectangularMaskMixin._calc_extents'
+    corner = lambda sx, sy: (f'({sx} * width / 2 * {c} - {sy} * height / 2 * {s})',  # noqa: E731
+                             f'({sx} * width / 2 * {s} + {sy} * height / 2 * {c})')
+    reg.add(Contract(
+        target=R, props=['C01'], kind='staticmethod',
+        params={'width': 'posreal', 'height': 'posreal', 'theta': 'Quantity'},
+        consts=consts,
+        ensures=[
+            # containment of every corner (hence, by convexity, of the rectangle)
+            ('contains-corners',
+             ' and '.join(f'abs({corner(a, b)[0]}) <= result[0] and abs({corner(a, b)[1]}) <= result[1]'
+                          for a in (1, -1) for b in (1, -1))),
+            # containment of every point (p, q), |p| <= w/2, |q| <= h/2, of the rectangle
+            ('contains-rectangle',
+             'forall_real(lambda p, q: implies(abs(p) <= width / 2 and abs(q) <= height / 2, '
+             f'abs(p * {c} - q * {s}) <= result[0] and abs(p * {s} + q * {c}) <= result[1]))'),
+            # tightness: some corner attains each extent
+            ('tight-x', ' or '.join(f'abs({corner(a, b)[0]}) == result[0]'
+                                    for a in (1, -1) for b in (1, -1))),
+            ('tight-y', ' or '.join(f'abs({corner(a, b)[1]}) == result[1]'
+                                    for a in (1, -1) for b in (1, -1))),
+        ],
+        returns=('tuple', 'real', 'real'),
+        mutants=[('x_extent = max(x_extent1, x_extent2)', 'x_extent = min(x_extent1, x_extent2)'),
+                 ('y_extent2 = abs((half_width * sin_theta) - (half_height * cos_theta))',
+                  'y_extent2 = abs((half_width * cos_theta) - (half_height * sin_theta))'),
+                 ('half_height = height / 2.0', 'half_height = height')],
+    ))
+
+
+def _ellipse_extent_lemmas(verifier, c, fdef, consts, tree):
+    """Run the real _calc_extents symbolically, then prove containment and tightness of the
+    returned extents as real-arithmetic lemmas (nlsat)."""
+    import time
+
+    import z3
+    from ..common import DISCHARGED, REFUTED, UNKNOWN, Obligation
+    from ..pyvc import solve
+    from ..pyvc.contracts import make_symbolic
+    from ..pyvc.symexec import Executor, State
+    st = State()
+    ex = Executor(verifier.reg, consts)
+    for name, spec in c.params.items():
+        st.env[name] = make_symbolic(spec, name, verifier.reg, st)
+    a, b = st.env['semimajor_axis'], st.env['semiminor_axis']
+    paths = ex.run_function(fdef, st, cls=c.cls)
+    base = f'pyvc:{c.key}'
+    obs = []
+    normal = [(p, oc) for p, oc in paths if oc[0] == 'return']
+    cs = ex.eval_cl('cos_(theta.rad)', State(dict(st.env)))
+    sn = ex.eval_cl('sin_(theta.rad)', State(dict(st.env)))
+    p, q = z3.Real('pt_p'), z3.Real('pt_q')
+    goals = []
+    for pst, oc in normal:
+        X, Y = oc[1]
+        hy = pst.hyps() + [sn * sn + cs * cs == 1]
+        inside = ((p * cs + q * sn) / a) ** 2 + ((-p * sn + q * cs) / b) ** 2 <= 1
+        goals.append(('contains-x', 'every point of the ellipse has |p| <= x_extent', hy + [inside],
+                      z3.And(p <= X, -X <= p)))
+        goals.append(('contains-y', 'every point of the ellipse has |q| <= y_extent', hy + [inside],
+                      z3.And(q <= Y, -Y <= q)))
+        # tightness witnesses: the points of tangency with the vertical / horizontal lines
+        px, qx = X, (a * a - b * b) * sn * cs / X
+        on = lambda u, v: ((u * cs + v * sn) / a) ** 2 + ((-u * sn + v * cs) / b) ** 2 == 1  # noqa: E731
+        goals.append(('tight-x', 'the point (X, (a^2-b^2) sin cos / X) lies on the ellipse',
+                      hy, on(px, qx)))
+        qy, py = Y, (a * a - b * b) * sn * cs / Y
+        goals.append(('tight-y', 'the point ((a^2-b^2) sin cos / Y, Y) lies on the ellipse',
+                      hy, on(py, qy)))
+    for kind, text, hy, goal in goals:
+        o = Obligation(f'{base}/lemma:{kind}', c.props[0], 'pyvc', DISCHARGED, text=text)
+        t0 = time.time()
+        res, model, be = solve.check(list(hy) + [z3.Not(goal)], timeout_s=verifier.timeout_s,
+                                     tag=o.oid)
+        o.time_s = round(time.time() - t0, 4)
+        o.backend = be
+        if res == 'sat':
+            o.status, o.detail = REFUTED, 'counter-model for the geometric lemma'
+        elif res != 'unsat':
+            o.status, o.detail = UNKNOWN, 'solver returned unknown'
+        obs.append(o)
+    cov = Obligation(f'{base}/cover', c.props[0], 'pyvc', DISCHARGED,
+                     text='hypotheses of the lemmas are satisfiable (a point inside the ellipse)')
+    if not normal or solve.check(goals[0][2], timeout_s=verifier.timeout_s)[0] != 'sat':
+        cov.status, cov.detail = 'error', 'vacuous: no normal path or unsatisfiable hypotheses'
+    obs.append(cov)
+    return obs
+
+
+def register_bbox(reg):
+    P = 'photutils/aperture/core.py::PixelAperture'
+    reg.record('PixelAperture', {'_positions': ('arr', 2, 'real'),
+                                 '_xy_extents': ('tuple', 'real', 'real')})
+    reg.add(Contract(
+        target=f'{P}._bbox', props=['C01'], kind='property',
+        params={'self': 'PixelAperture'},
+        requires=['self._positions.shape[1] == 2', 'self._xy_extents[0] >= 0',
+                  'self._xy_extents[1] >= 0'],
+        ensures=[
+            ('one-box-per-position', 'len(result) == self._positions.shape[0]'),
+            # each box is the smallest pixel box containing centre +- half extents
+            ('minimal-box-per-position',
+             'forall(lambda i: '
+             'result[i].ixmin - 0.5 <= self._positions[i, 0] - self._xy_extents[0] and '
+             'self._positions[i, 0] - self._xy_extents[0] < result[i].ixmin + 0.5 and '
+             'result[i].ixmax - 1.5 < self._positions[i, 0] + self._xy_extents[0] and '
+             'self._positions[i, 0] + self._xy_extents[0] <= result[i].ixmax - 0.5 and '
+             'result[i].iymin - 0.5 <= self._positions[i, 1] - self._xy_extents[1] and '
+             'self._positions[i, 1] - self._xy_extents[1] < result[i].iymin + 0.5 and '
+             'result[i].iymax - 1.5 < self._positions[i, 1] + self._xy_extents[1] and '
+             'self._positions[i, 1] + self._xy_extents[1] <= result[i].iymax - 0.5, '
+             '(0, self._positions.shape[0]))'),
+        ],
+        mutants=[('ymin = self._positions[:, 1] - y_delta', 'ymin = self._positions[:, 1] - x_delta'),
+                 ('xmax = self._positions[:, 0] + x_delta', 'xmax = self._positions[:, 0] - x_delta'),
+                 ('BoundingBox.from_float(x0, x1, y0, y1)', 'BoundingBox.from_float(y0, y1, x0, x1)')],
+    ))
+
+
+def register_xy_extents(reg):
+    """The half extents each aperture class hands to _bbox: the (outer) shape's own extents."""
+    from ..pyvc.values import SObj
+    consts = {'u': SObj('module', {'radian': 'radian'})}
+    c, s = 'cos_(self.theta.rad)', 'sin_(self.theta.rad)'
+    for cls, fields, (A, B) in (
+            ('EllipticalAperture', ('a', 'b'), ('a', 'b')),
+            ('EllipticalAnnulus', ('a_in', 'a_out', 'b_in', 'b_out'), ('a_out', 'b_out'))):
+        reg.record(cls, {**{f: 'posreal' for f in fields}, 'theta': 'Quantity'},
+                   bases=['EllipticalMaskMixin'])
+        reg.add(Contract(
+            target=f'photutils/aperture/ellipse.py::{cls}._xy_extents', props=['C01'],
+            kind='property', params={'self': cls}, consts=consts,
+            requires=['self.a_in < self.a_out', 'self.b_in < self.b_out'] if 'a_in' in fields else [],
+            ensures=[('outer-ellipse-extents',
+                      f'result[0] >= 0 and result[1] >= 0 and '
+                      f'sq(result[0]) == sq(self.{A} * {c}) + sq(self.{B} * {s}) and '
+                      f'sq(result[1]) == sq(self.{A} * {s}) + sq(self.{B} * {c})')],
+            mutants=[(f'self.{A}, self.{B}, self.theta', f'self.{B}, self.{A}, self.theta')]
+            + ([('self.a_out, self.b_out', 'self.a_in, self.b_in')] if 'a_in' in fields else []),
+        ))
+    for cls, fields, (W, H) in (
+            ('RectangularAperture', ('w', 'h'), ('w', 'h')),
+            ('RectangularAnnulus', ('w_in', 'w_out', 'h_in', 'h_out'), ('w_out', 'h_out'))):
+        reg.record(cls, {**{f: 'posreal' for f in fields}, 'theta': 'Quantity'},
+                   bases=['RectangularMaskMixin'])
+        corner = lambda sx, sy: (  # noqa: E731
+            f'abs({sx} * self.{W} / 2 * {c} - {sy} * self.{H} / 2 * {s})',
+            f'abs({sx} * self.{W} / 2 * {s} + {sy} * self.{H} / 2 * {c})')
+        reg.add(Contract(
+            target=f'photutils/aperture/rectangle.py::{cls}._xy_extents', props=['C01'],
+            kind='property', params={'self': cls}, consts=consts,
+            requires=['self.w_in < self.w_out', 'self.h_in < self.h_out'] if 'w_in' in fields else [],
+            ensures=[('outer-rectangle-extents',
+                      ' and '.join(f'{corner(a, b)[0]} <= result[0] and {corner(a, b)[1]} <= result[1]'
+                                   for a in (1, -1) for b in (1, -1)) + ' and (' +
+                      ' or '.join(f'{corner(a, b)[0]} == result[0]' for a in (1, -1) for b in (1, -1))
+                      + ') and (' +
+                      ' or '.join(f'{corner(a, b)[1]} == result[1]' for a in (1, -1) for b in (1, -1))
+                      + ')')],
+            mutants=[(f'self.{W}, self.{H}, self.theta', f'self.{H}, self.{W}, self.theta')]
+            + ([('self.w_out, self.h_out', 'self.w_in, self.h_in')] if 'w_in' in fields else []),
+        ))
+    for cls, R in (('CircularAperture', 'r'), ('CircularAnnulus', 'r_out')):
+        fields = {'r': 'posreal'} if R == 'r' else {'r_in': 'posreal', 'r_out': 'posreal'}
+        reg.record(cls, fields)
+        reg.add(Contract(
+            target=f'photutils/aperture/circle.py::{cls}._xy_extents', props=['C01'],
+            kind='property', params={'self': cls},
+            requires=['self.r_in < self.r_out'] if R != 'r' else [],
+            ensures=[('outer-radius', f'result == (self.{R}, self.{R})'),
+                     ('contains-disc',
+                      f'forall_real(lambda p, q: implies(sq(p) + sq(q) <= sq(self.{R}), '
+                      f'abs(p) <= result[0] and abs(q) <= result[1]))')],
+            mutants=[(f'return self.{R}, self.{R}', f'return self.{R} / 2, self.{R}')]
+            + ([('return self.r_out, self.r_out', 'return self.r_in, self.r_in')] if R != 'r' else []),
+        ))
